@@ -272,8 +272,9 @@ func Read(r io.Reader) (*Font, error) {
 		}
 
 		var names []string
-		if postInfo != nil {
-			names = postInfo.Names
+		if postInfo != nil && len(postInfo.Names) >= len(ttGlyphs) {
+			// Glyph names are only used if there is a name for every glyph.
+			names = postInfo.Names[:len(ttGlyphs)]
 		}
 		Outlines = &glyf.Outlines{
 			Widths: widths,
